@@ -101,3 +101,24 @@ def factory_product(I: Interp, o: Outcome, fac: Any) -> Optional[Tuple[Any, int,
 
 def handler_is_builder_bound_to_callback(od: Any) -> bool:
     return bool(isinstance(od, tuple) and od[:1] == ("partialobj",) and od[1][0] == "func" and od[1][1].qualname == "_parse_device_from_datagram" and od[2] == (("sym", "on_device", "callable"),))
+
+
+def restart_check(prog: Program, iter_count: Any, flat: Any) -> Tuple[Optional[str], int, set]:
+    """start() on an instance whose _transports holds whatever an earlier start/stop cycle left: every returning path
+    creates and registers an endpoint for each port it iterates, unless the path has established that the port's
+    registered transport is still open.  Returns (what is wrong or None, number of returning paths, functions visited)."""
+    from .interp import neg as _neg
+    I7, outs7, _fi7 = run_bridge_method(prog, "start", fresh_instance=False)
+    bad7 = None
+    rets7 = [o for o in outs7 if o.kind == "return"]
+    for o in rets7:
+        k = iter_count(o)
+        cde = ev_calls(o, ".create_datagram_endpoint")
+        stores = [e for e in o.state.events if e.kind == "storeitem" and e.target == "self._transports"]
+        pcs7 = flat(o.state.pc)
+        live = [e for e in o.state.events if e.kind == "call" and e.target.endswith(".is_closing") and (_neg(("truthy", e.result)) in pcs7 or ("not", ("truthy", e.result)) in pcs7)]
+        if k is None or len(cde) + len(live) < min(k, 2) or len(cde) > min(k, 2) or len(stores) != len(cde):
+            looked = [e for e in o.state.events if e.kind == "call" and e.target.startswith("self._transports.")]
+            bad7 = (f"restart path with {k} port(s): {len(cde)} endpoints created, {len(stores)} registered"
+                    + (f" after consulting {looked[0].target}() - entries left by an earlier start/stop cycle make start skip the port while the flag is still set" if looked else ""))
+    return bad7, len(rets7), set(I7.functions_visited)
